@@ -78,6 +78,11 @@ PROPS['C18'] = dict(engine='file', fields=['meta', 'polls', 'new'], trivial_tags
     trusted_base=COMMON_TB + ['modelled, not verified: pread (returns 1..=min(asked, available) bytes, 0 at or after EOF), fstat, tokio block_in_place; Windows code paths are not compiled here'],
     assumptions=['no concurrent writer other than the harness\'s own set_len between polls', 'modification time after the epoch (else etag() panics by an explicit expect)'])
 
+PROPS['C10'] = dict(engine='sched', fields=['trace'], trivial_tags=[],
+    rule='stateless depth-first enumeration of schedules of the real chunker (two OS threads under a baton, decision points: operation boundaries, the point right after every lock release of the producer -- reported by the verif-hooks mutex -- and every consumer poll) for all producer programs of <= 3 (quick) / 4 (thorough) operations over {write(chunk-completing), write(partial), flush, wait-until-consumer-parked, abort, drop} x chunk sizes {1,2} x waker policy {same, fresh per poll} x {0,2} spurious polls while parked, and body drops after 0..2 polls; capped at 400 (quick) / 4000 (thorough) schedules per program. Each executed schedule is replayed event by event on the Coq transition system (critical sections, wake-ups with waker identity, poll results) and the invariant J is evaluated after every event.' + GEN_NOTE,
+    trusted_base=STREAM_TB + ['the baton scheduler of the harness (harness/src/sched_engine.rs) and the verif-hooks mutex wrapper in /repo/src/verif_hooks.rs'],
+    assumptions=['std::sync::Mutex provides mutual exclusion; effects below the mutex (weak memory) are not exhibited', 'every operation of the real code holds the lock for contiguous sections and wakes only after releasing it (checked per schedule by the hook: wake-while-locked, lock count per operation)', 'write_all is not part of the concurrent programs (each of its writes is one such operation)'])
+
 def known_class(prop, specfail, known_here):
     """Returns the known-finding entry whose class contains this failing case, if any."""
     for k in known_here:
@@ -107,7 +112,7 @@ def relevant(field, patterns):
     return False
 
 def explore(prop, cfg, tier, seed, work, result, T):
-    if cfg['engine'] in ('serve', 'negot', 'stream', 'dir', 'file'):
+    if cfg['engine'] in ('serve', 'negot', 'stream', 'dir', 'file', 'sched'):
         return explore_lines(prop, cfg, tier, seed, work, result, T)
     raise RuntimeError('unknown engine')
 
